@@ -1590,3 +1590,23 @@ Proof.
   split; [now rewrite <- valid_string_utf8_b|]. split; [reflexivity|].
   unfold validate_value in Hv. rewrite <- Hv. apply forallb_ext_eq. intro c. symmetry. apply value_char_octet.
 Qed.
+
+(** ** Parse accepts: duplicates never cause a rejection, the member limit counts the resolved members *)
+Lemma parse_members_all pieces : forall ms acc,
+  map parse_member pieces = map Some ms -> parse_members pieces acc = Some (fold_left bag_set ms acc).
+Proof.
+  induction pieces as [|p r IH]; intros [|m ms] acc H; cbn in H; try discriminate; [reflexivity|].
+  cbn [parse_members fold_left]. assert (E : parse_member p = Some m) by now inversion H.
+  rewrite E. apply IH. now inversion H.
+Qed.
+
+Lemma parse_complete s ms :
+  s <> [] -> map parse_member (split COMMA s) = map Some ms ->
+  lenN s <= MAX_BYTES_PER_BAGGAGE -> lenN (fold_left bag_set ms []) <= MAX_MEMBERS ->
+  parse s = Some (fold_left bag_set ms []).
+Proof.
+  intros Hs Hm Hl Hn. rewrite parse_nonempty by exact Hs.
+  assert (E1 : (MAX_BYTES_PER_BAGGAGE <? lenN s) = false) by lia. rewrite E1.
+  rewrite (parse_members_all _ _ _ Hm).
+  assert (E2 : (MAX_MEMBERS <? lenN (fold_left bag_set ms [])) = false) by lia. now rewrite E2.
+Qed.
